@@ -973,7 +973,7 @@ def replay(case):
 
 
 def plan(tier, seed, jobs):
-    n = 150 if tier == "quick" else 2000
+    n = 150 if tier == "quick" else 6000
     return [{"seed": seed * 1000 + k, "n": n, "k": k, "of": jobs, "base_seed": seed}
             for k in range(jobs)]
 
